@@ -491,6 +491,7 @@ func (ctx Ctx) selectorMethod(f *ast.SelectorExpr, call *ast.CallExpr) coq.Expr 
 	case *types.Interface:
 		interfaceInfo, ok := ctx.getInterfaceInfo(selectorType)
 		if ok {
+			ctx.dep.addDep(interfaceInfo.name)
 			callArgs := append([]ast.Expr{f.X}, args...)
 			return ctx.newCoqCall(
 				coq.InterfaceMethodName(interfaceInfo.name, f.Sel.Name),
@@ -675,6 +676,7 @@ func (ctx Ctx) newExpr(ty ast.Expr) coq.CallExpr {
 	// (new(*T) should be translated to ref (zero_val ptrT) as usual,
 	// a pointer to a nil pointer)
 	if info, ok := ctx.getStructInfo(ctx.typeOf(ty)); ok && !info.throughPointer {
+		ctx.dep.addDep(info.name)
 		return coq.NewCallExpr(coq.GallinaIdent("struct.alloc"), coq.StructDesc(info.name), e)
 	}
 	return coq.NewCallExpr(coq.GallinaIdent("ref"), e)
@@ -1149,6 +1151,7 @@ func (ctx Ctx) indexExpr(e *ast.IndexExpr, isSpecial bool) coq.CallExpr {
 func (ctx Ctx) derefExpr(e ast.Expr) coq.Expr {
 	info, ok := ctx.getStructInfo(ctx.typeOf(e))
 	if ok && info.throughPointer {
+		ctx.dep.addDep(info.name)
 		return coq.NewCallExpr(coq.GallinaIdent("struct.load"),
 			coq.StructDesc(info.name),
 			ctx.expr(e))
@@ -1602,6 +1605,7 @@ func (ctx Ctx) refExpr(s ast.Expr) coq.Expr {
 		} else {
 			structExpr = ctx.refExpr(s.X)
 		}
+		ctx.dep.addDep(info.name)
 		return coq.NewCallExpr(coq.GallinaIdent("struct.fieldRef"), coq.StructDesc(info.name),
 			coq.GallinaString(fieldName), structExpr)
 	// TODO: should move support for slice indexing here as well
@@ -1656,6 +1660,7 @@ func (ctx Ctx) assignFromTo(s ast.Node,
 	case *ast.StarExpr:
 		info, ok := ctx.getStructInfo(ctx.typeOf(lhs.X))
 		if ok && info.throughPointer {
+			ctx.dep.addDep(info.name)
 			return coq.NewAnon(coq.NewCallExpr(coq.GallinaIdent("struct.store"),
 				coq.StructDesc(info.name),
 				ctx.expr(lhs.X),
@@ -1685,6 +1690,7 @@ func (ctx Ctx) assignFromTo(s ast.Node,
 		}
 		if ok {
 			fieldName := lhs.Sel.Name
+			ctx.dep.addDep(info.name)
 			return coq.NewAnon(coq.NewCallExpr(coq.GallinaIdent("struct.storeF"),
 				coq.StructDesc(info.name),
 				coq.GallinaString(fieldName),
@@ -2152,6 +2158,10 @@ func (ctx Ctx) callExprInterface(cvs []coq.Decl, r *ast.CallExpr) []coq.Decl {
 			if _, ok := ctx.typeOf(arg).Underlying().(*types.Struct); ok {
 				cv := coq.StructToInterface{Struct: structName, Interface: interfaceName, Methods: methods}
 				if len(cv.Coq(true)) > 1 && len(cv.MethodList()) > 0 {
+					ctx.dep.addDep(interfaceName)
+					for _, m := range methods {
+						ctx.dep.addDep(coq.MethodName(structName, m))
+					}
 					cvs = append(cvs, cv)
 				}
 			}
